@@ -393,6 +393,130 @@ def structured_1d(ctx, col, rng):
                     oracle(ctx, route, desc, base, (), e0, r, False, why=str(e))
 
 
+def linop_views(ctx):
+    """every (iterated) view of a tensor-network linear operator acts as the corresponding matrix:
+    A, A.T, A.conj(), A.H and their compositions (A.H.H, A.conj().conj(), A.H.conj(), A.T.H ...),
+    through matvec / rmatvec / matmat / to_dense, for TNLinearOperator and TNLinearOperator1D."""
+    import quimb.tensor as qtn
+    from quimb.tensor.tensor_core import bonds
+
+    rng = np.random.default_rng(ctx.seed + 101)
+    views = {"id": lambda A: A, "T": lambda A: A.T, "C": lambda A: A.conj(), "H": lambda A: A.H}
+    mats = {"id": lambda M: M, "T": lambda M: M.T, "C": lambda M: M.conj(), "H": lambda M: M.conj().T}
+
+    def operators():
+        # generic operator from a small complex network
+        for _ in range(ctx.n(6, 40)):
+            a = qtn.Tensor(rand_cplx(rng, (2, 3, 2)), ("l0", "b", "l1"))
+            b = qtn.Tensor(rand_cplx(rng, (3, 2, 2)), ("b", "r0", "c"))
+            c = qtn.Tensor(rand_cplx(rng, (2, 3)), ("c", "r1"))
+            tn = qtn.TensorNetwork([a, b, c])
+            left, right = ("l0", "l1"), ("r0", "r1")
+            M = tm.np_dense(tm.qtn_tensors(tn), left + right).reshape(4, 6)
+            yield "TNLinearOperator", tn.aslinearoperator(left, right), M
+        # 1D structured operator: a section of <p|p>
+        for _ in range(ctx.n(4, 30)):
+            L = int(rng.integers(5, 8))
+            p = qtn.MPS_rand_state(L, 3, dtype=complex, seed=int(rng.integers(1 << 30)))
+            pp = p.H & p
+            start, stop = 1, L - 1
+            lix = tuple(bonds(pp[start - 1], pp[start]))
+            rix = tuple(bonds(pp[stop - 1], pp[stop]))
+            sec = pp[start:stop]
+            dl = int(np.prod([sec.ind_size(i) for i in lix]))
+            dr = int(np.prod([sec.ind_size(i) for i in rix]))
+            M = tm.np_dense(tm.qtn_tensors(sec), lix + rix).reshape(dl, dr)
+            yield "TNLinearOperator1D", qtn.TNLinearOperator1D(sec, lix, rix, start, stop), M
+
+    for kind, A0, M0 in operators():
+        for depth in (1, 2, 3):
+            for combo in itertools.product(list(views), repeat=depth):
+                if depth == 3 and rng.random() < 0.7:
+                    continue
+                A, M = A0, M0
+                for v in combo:
+                    A, M = views[v](A), mats[v](M)
+                name = ".".join(combo)
+                ctx.count((kind, name), depth > 1 and any(v in ("C", "H") for v in combo))
+                ctx.bump("linop_view_depth%d" % depth)
+                x = rand_cplx(rng, (M.shape[1],))
+                z = rand_cplx(rng, (M.shape[0],))
+                X = rand_cplx(rng, (M.shape[1], 2))
+                checks = [("matvec", lambda: A @ x, M @ x), ("rmatvec", lambda: A.rmatvec(z), M.conj().T @ z),
+                          ("matmat", lambda: A @ X, M @ X), ("shape", lambda: np.zeros(A.shape), np.zeros(M.shape))]
+                if hasattr(A, "to_dense") and kind == "TNLinearOperator":
+                    checks.append(("to_dense", lambda: np.asarray(A.to_dense()), M))
+                for what, fn, want in checks:
+                    try:
+                        got = np.asarray(fn())
+                    except Exception as e:
+                        ctx.violation(f"linop_view:{kind}:raised", f"{kind} view {name}: {what} raised {type(e).__name__}: {str(e)[:100]}",
+                                      {"kind": kind, "view": name, "op": what})
+                        continue
+                    scale = max(1.0, float(np.max(np.abs(want))) if want.size else 1.0)
+                    if got.shape != want.shape or not np.allclose(got, want, atol=1e-9 * scale, rtol=1e-9):
+                        ctx.violation(f"linop_view:{kind}:{what}", f"{kind} view {name}: {what} is not the action of the corresponding matrix",
+                                      {"kind": kind, "view": name, "op": what})
+
+
+def rand_cplx(rng, shape):
+    return rng.integers(-3, 4, size=shape) + 1j * rng.integers(-3, 4, size=shape)
+
+
+def tiny_values(ctx):
+    """networks whose complex value is tiny in absolute terms: every route must agree with the
+    reference in BOTH real and imaginary part, relative to the value's own size."""
+    import quimb.tensor as qtn
+
+    rng = ctx.rng
+    for n in range(ctx.n(40, 400)):
+        if n % 2 == 0:
+            # closed ring / chain: the value is a complex SCALAR
+            k = rng.randint(2, 4)
+            labs = [f"x{i}" for i in range(k)]
+            ts = []
+            for i in range(k):
+                a, b = labs[i], labs[(i + 1) % k]
+                inds = (a, b) if k > 2 or i == 0 else (b, a)
+                ts.append(qtn.Tensor(rand_array(rng, (2, 2), True), inds, tags=[f"T{i}", "X"]))
+            tn = qtn.TensorNetwork(ts)
+        else:
+            tn = rand_network(rng, True)
+        cnt = counts(tn)
+        if any(v > 2 for v in cnt.values()):
+            continue
+        scale = 10.0 ** (-rng.randint(6, 20))
+        t0 = tn.tensors[0]
+        t0.modify(data=t0.data * scale)
+        base = tm.qtn_tensors(tn)
+        natural = tuple(i for i in tm_concat(tn) if cnt[i] == 1)
+        ref = tm.np_dense(base, natural).reshape(-1)
+        if not np.any(ref):
+            continue
+        mag = float(np.max(np.abs(ref)))
+        tags = [f"T{i}" for i in range(tn.num_tensors)]
+        routes = {
+            "contract_all": lambda: tn.copy().contract(all, output_inds=natural),
+            "xor_all": lambda: tn.copy() ^ all,
+            "contract_tags": lambda: tn.copy().contract(tags),
+            "contract_cumulative": lambda: tn.copy().contract_cumulative(tags),
+            "tensor_contract": lambda: qtn.tensor_contract(*tn.copy().tensors, output_inds=natural),
+            "strip": lambda: (lambda r: r[0] * 10.0 ** r[1])(tn.copy().contract(all, output_inds=natural, strip_exponent=True)),
+        }
+        for route, fn in routes.items():
+            ctx.count(("tiny", n, route), True)
+            ctx.bump("route:tiny:" + route)
+            try:
+                got, _ = flat_of(fn(), natural)
+            except Exception as e:
+                ctx.violation(f"route:{route}:tiny:raised", f"{route} raised {type(e).__name__} on a tiny-valued network", {"scale": scale, "route": route})
+                continue
+            if got.shape != ref.shape or not np.allclose(got, ref, atol=1e-9 * mag, rtol=1e-9):
+                ctx.violation(f"route:{route}:tiny_complex_value", f"{route} loses part of a tiny complex value (|value| ~ {mag:.1e})",
+                              {"scale": scale, "route": route, "got": [str(x) for x in got[:4]], "want": [str(x) for x in ref[:4]],
+                               "tensors": [(list(i), np.asarray(a).tolist()) for i, a in base]})
+
+
 def correspondence(ctx):
     rng = ctx.rng
     col = Collector(ctx)
@@ -441,6 +565,8 @@ def run(ctx):
                         "tag-by-tag / cumulative / inferred-output routes are exercised on networks without hyper labels"]
     ctx.check_props(["Base/Sums.vo", "Base/TN.vo", "Base/TNExec.vo", "C01/Props.v"])
     ctx.stage(correspondence)
+    ctx.stage(linop_views)
+    ctx.stage(tiny_values)
 
 
 def replay(ctx, path):
